@@ -1551,6 +1551,11 @@ func (r *runner) crash(o Op) {
 			included = true
 		}
 	}
+	// … or the watermark on disk moved: it is only written after the batch (whose prune it holds) has
+	// been synced, and the log that received the batch may already be unlinked
+	if built.Wm > preReal.Wm {
+		included = true
+	}
 	r.res.Compared(1)
 	both := append(append([]call(nil), r.acked...), r.calls...)
 	if included != b.Infl && !eq(spec(r.acked), spec(both)) && (cop == "flush" || cop == "close") {
